@@ -332,6 +332,164 @@ theorem diffAt_complete (o : Opts) (hs : o.shallow = false)
 
 /-! ### rename detection -/
 
+/-! ### every key is reported at most once -/
+
+/-- the key a change is reported for -/
+def nodeKey (c : Change) : Option Key :=
+  match c.old with
+  | some p => some p.1
+  | none => c.new.map (·.1)
+
+theorem nodeKey_hereOf (o : Opts) (old new : Option Index) (k : Key) (c : Change) (h : c ∈ hereOf o old new k) :
+    nodeKey c = some k := by
+  obtain ⟨_, ho, hn, hsome, _⟩ := mem_hereOf o old new k c h
+  unfold nodeKey
+  rw [ho, hn]
+  cases h1 : entryOf old k with
+  | some e => rfl
+  | none =>
+    cases h2 : entryOf new k with
+    | some e => rfl
+    | none => simp [h1, h2] at hsome
+
+theorem nodup_insertSet {α : Type} [DecidableEq α] (s : List α) (x : α) (h : s.Nodup) : (insertSet s x).Nodup := by
+  unfold insertSet
+  split
+  · exact h
+  · rename_i hx
+    rw [List.nodup_append]
+    refine ⟨h, by simp, ?_⟩
+    intro a ha b hb
+    simp only [List.mem_singleton] at hb
+    subst hb
+    intro e; subst e; exact hx ha
+
+theorem nodup_foldl_insertSet {α : Type} [DecidableEq α] (l : List α) : ∀ (acc : List α), acc.Nodup →
+    (l.foldl insertSet acc).Nodup := by
+  induction l with
+  | nil => intro acc h; exact h
+  | cons a r ih => intro acc h; exact ih _ (nodup_insertSet acc a h)
+
+theorem lsAt_spec (idx : Option Index) (k : Key) :
+    (lsAt idx k).Nodup ∧ ∀ c ∈ lsAt idx k, ∃ p, c = k ++ [p] := by
+  unfold lsAt
+  cases idx with
+  | none => simp
+  | some i =>
+    simp only
+    split
+    · constructor
+      · have hn : (childNames i k).Nodup := nodup_foldl_insertSet _ [] (by simp)
+        unfold List.Nodup at hn ⊢
+        rw [List.pairwise_map]
+        exact hn.imp (fun {a b} hab e => hab (by simpa using e))
+      · intro c hc
+        obtain ⟨p, _, rfl⟩ := List.mem_map.mp hc
+        exact ⟨p, rfl⟩
+    · simp
+
+theorem itemsOf_cases (o : Opts) (idx : Option Index) (k : Key) (e : Option Entry) :
+    itemsOf o idx k e = [] ∨ itemsOf o idx k e = lsAt idx k := by
+  unfold itemsOf
+  cases e with
+  | none => simp
+  | some e => cases h1 : o.shallow <;> cases h2 : hiTruthy e.hashInfo <;> simp [h2]
+
+theorem childrenOf_spec (o : Opts) (old new : Option Index) (k : Key) :
+    (childrenOf o old new k).Nodup ∧ ∀ c ∈ childrenOf o old new k, ∃ p, c = k ++ [p] := by
+  unfold childrenOf unionKeys
+  constructor
+  · apply nodup_foldl_insertSet
+    rcases itemsOf_cases o old k (entryOf old k) with h | h <;> rw [h]
+    · simp
+    · exact (lsAt_spec old k).1
+  · intro c hc
+    rw [mem_foldl_insertSet] at hc
+    rcases hc with hc | hc
+    · rcases itemsOf_cases o old k (entryOf old k) with h | h <;> rw [h] at hc
+      · simp at hc
+      · exact (lsAt_spec old k).2 c hc
+    · rcases itemsOf_cases o new k (entryOf new k) with h | h <;> rw [h] at hc
+      · simp at hc
+      · exact (lsAt_spec new k).2 c hc
+
+/-- everything the traversal reports from node `k` downwards sits at a key that extends `k` -/
+theorem diffAt_below (o : Opts) (old new : Option Index) : ∀ (f : Nat) (k : Key) (c : Change),
+    c ∈ diffAt o old new f k → ∃ k', nodeKey c = some k' ∧ k <+: k' := by
+  intro f
+  induction f with
+  | zero => intro k c h; simp [diffAt] at h
+  | succ f ih =>
+    intro k c h
+    rw [diffAt_succ] at h
+    rcases List.mem_append.mp h with h | h
+    · exact ⟨k, nodeKey_hereOf o old new k c h, List.prefix_refl k⟩
+    · split at h
+      · simp at h
+      · split at h
+        · obtain ⟨ch, hch, hc⟩ := List.mem_flatMap.mp h
+          obtain ⟨p, rfl⟩ := (childrenOf_spec o old new k).2 ch hch
+          obtain ⟨k', hk', hpre⟩ := ih _ c hc
+          exact ⟨k', hk', (List.prefix_append k [p]).trans hpre⟩
+        · simp at h
+
+/-- **exactly once**: no key is reported twice by the traversal — for any two indexes, options and depth -/
+theorem diffAt_nodup (o : Opts) (old new : Option Index) : ∀ (f : Nat) (k : Key),
+    (diffAt o old new f k).Pairwise fun a b => nodeKey a ≠ nodeKey b := by
+  intro f
+  induction f with
+  | zero => intro k; simp [diffAt]
+  | succ f ih =>
+    intro k
+    rw [diffAt_succ, List.pairwise_append]
+    refine ⟨?_, ?_, ?_⟩
+    · -- at most one change at `k` itself
+      unfold hereOf
+      simp only
+      split
+      · simp
+      · split <;> simp
+    · split
+      · simp
+      · split
+        · rw [List.pairwise_flatMap]
+          refine ⟨fun ch _ => ih ch, ?_⟩
+          have hnd := (childrenOf_spec o old new k).1
+          have hform := (childrenOf_spec o old new k).2
+          unfold List.Nodup at hnd
+          -- distinct children head disjoint sub-trees
+          have : ∀ c1 c2, c1 ∈ childrenOf o old new k → c2 ∈ childrenOf o old new k → c1 ≠ c2 →
+              ∀ x ∈ diffAt o old new f c1, ∀ y ∈ diffAt o old new f c2, nodeKey x ≠ nodeKey y := by
+            intro c1 c2 h1 h2 hne x hx y hy hxy
+            obtain ⟨p1, rfl⟩ := hform c1 h1
+            obtain ⟨p2, rfl⟩ := hform c2 h2
+            obtain ⟨k1, hk1, hpre1⟩ := diffAt_below o old new f _ x hx
+            obtain ⟨k2, hk2, hpre2⟩ := diffAt_below o old new f _ y hy
+            rw [hk1, hk2] at hxy
+            injection hxy with hxy
+            subst hxy
+            have hle : (k ++ [p1]).length ≤ (k ++ [p2]).length := by simp
+            have := List.prefix_of_prefix_length_le hpre1 hpre2 hle
+            exact hne (this.eq_of_length (by simp))
+          exact List.Pairwise.imp_of_mem (fun {a b} ha hb hab => this a b ha hb hab) hnd
+        · simp
+    · -- the change at `k` and the changes below it
+      intro a ha b hb hab
+      have hka := nodeKey_hereOf o old new k a ha
+      split at hb
+      · simp at hb
+      · split at hb
+        · obtain ⟨ch, hch, hc⟩ := List.mem_flatMap.mp hb
+          obtain ⟨p, rfl⟩ := (childrenOf_spec o old new k).2 ch hch
+          obtain ⟨k', hk', hpre⟩ := diffAt_below o old new f _ b hc
+          rw [hka, hk'] at hab
+          injection hab with hab
+          subst hab
+          have := hpre.length_le
+          simp at this
+          omega
+        · simp at hb
+
 def newHash (c : Change) : Option HashInfo := c.new.bind (·.2.hashInfo)
 def oldHash (c : Change) : Option HashInfo := c.old.bind (·.2.hashInfo)
 
